@@ -13,6 +13,7 @@ Correspondence: per page, the Lean model's top/bottom grids and component overri
 from __future__ import annotations
 
 from .. import common, laygen, layfamily, rtfread
+from . import c02
 
 MANIFEST = dict(
     text="Lean theorems over applyBorders for every page shape, user border matrix and flag combination: page/body "
@@ -27,7 +28,7 @@ MANIFEST = dict(
     design="7/C07",
 )
 
-RULE = ("border styles for rtf_page.border_first/last and rtf_body.border_first/last × header mode × footnote/source "
+RULE = ("border styles (incl. '' = none) for rtf_page.border_first/last and rtf_body.border_first/last × header mode × footnote/source "
         "(table, paragraph, absent) × placement × 1..many pages × strategies × per-cell user border matrices; plus "
         "multi-section documents for the first/last clauses; non-trivial = ≥ 2 pages; distinct by the configuration "
         "tuple and page sizes")
@@ -47,7 +48,54 @@ class C07(layfamily.Family):
     def ndocs(self, tier):
         return 320 if tier == "quick" else 5000
 
+    def gen_multi(self, rng, k):
+        """multi-section document (list of frames): the first/last clauses, and section joints are interior rows"""
+        spec, info = c02.gen_multi(rng)
+        pf, plast, bf, bl = (rng.choice(STYLES) for _ in range(4))
+        spec["page"]["border_first"] = pf
+        spec["page"]["border_last"] = plast
+        if k % 2:
+            spec["page"]["nrow"] = 40      # everything on one page: every section joint is interior
+        for b in spec["body"]:
+            b["border_first"] = bf
+            b["border_last"] = bl
+        ends, base = [], 0
+        for f in spec["df"]:
+            base += len(f["rows"])
+            ends.append(base - 1)
+        info.update(pf=pf, pl=plast, bf=bf, bl=bl, user=[], section_ends=ends, footnote="multi", source="absent",
+                    placements=None)
+        return spec, info
+
+    def oracle_multi(self, spec, info, ob):
+        fails = []
+        pages, raws = ob["pages"], ob["_raw"]
+        rowroles = ("colHeader", "data", "footnote", "source")
+        flat = [(pno, b, r) for pno, (bl, rb) in enumerate(zip(pages, raws), 1) for b, r in zip(bl, rb)
+                if b[0] in rowroles and (b[0] not in ("footnote", "source") or b[1])]
+        if not flat:
+            return fails
+        got = self.edges(flat[0][2], "t")
+        if any(x != code(info["pf"]) for x in got):
+            fails.append(f"top edge of the document's first table row ({flat[0][1]}) is {got}, rtf_page.border_first = {info['pf']}")
+        got = self.edges(flat[-1][2], "b")
+        if any(x != code(info["pl"]) for x in got):
+            fails.append(f"bottom edge of the document's last table row ({flat[-1][1]}) is {got}, rtf_page.border_last = {info['pl']}")
+        # the last data row of a non-final section, when the next section continues on the same page, is an interior
+        # row: its bottom edge is the user's border_bottom (none given → no border)
+        for i, (pno, b, r) in enumerate(flat[:-1]):
+            if b[0] == "data" and b[1] in info["section_ends"][:-1]:
+                npno, nb, _ = flat[i + 1]
+                if npno == pno and nb[0] in ("colHeader", "data"):
+                    got = self.edges(r, "b")
+                    if any(x is not None for x in got):
+                        fails.append(f"page {pno}: row {b[1]} ends a non-final section and the next section continues on "
+                                     f"the same page, but its bottom edge is {got}; the user's border_bottom is ''")
+        return fails[:4]
+
     def gen(self, rng, k, tier):
+        if k % 8 == 7:
+            return self.gen_multi(rng, k // 8)
         fk = ["absent", "para", "table"][k % 3]
         sk = ["absent", "para", "table"][(k // 3) % 3]
         pl = ["first", "last", "all"]
@@ -57,7 +105,12 @@ class C07(layfamily.Family):
         n = max(1, (target - 1) * (nrow - 4) + rng.randint(1, 3))
         spec, info = laygen.gen_spec(rng, n=n, nrow=nrow, footnote=fk, source=sk, placements=placements,
                                      long_rows=False, dividers=False)
-        pf, plast, bf, bl = (rng.choice(STYLES) for _ in range(4))
+        # '' = "no border / no override": such documents carry no user border_top/border_bottom, so that "the edge
+        # carries the setting" and "the edge keeps the user's border" name the same expected style (none)
+        empties = k % 5 == 2
+        pf, plast, bf, bl = (rng.choice(STYLES + ([""] if empties else [])) for _ in range(4))
+        if k % 10 == 2:
+            plast = ""
         spec["page"]["border_first"] = pf
         spec["page"]["border_last"] = plast
         spec["body"]["border_first"] = bf
@@ -65,7 +118,8 @@ class C07(layfamily.Family):
         ncols = len(spec["df"]["cols"])
         user = {}
         if rng.random() < 0.6:
-            for side in rng.sample(["border_top", "border_bottom", "border_left", "border_right"], rng.randint(1, 3)):
+            sides = ["border_left", "border_right"] if empties else ["border_top", "border_bottom", "border_left", "border_right"]
+            for side in rng.sample(sides, rng.randint(1, min(3, len(sides)))):
                 m = [[rng.choice(STYLES + ["", ""]) for _ in range(ncols)] for _ in range(n)]
                 if side == "border_top":
                     m[0] = [""] * ncols     # see MANIFEST note: keep table row 0 empty
@@ -80,6 +134,8 @@ class C07(layfamily.Family):
         return [(d.borders.get(side) or {}).get("style") for d in rowblock.defs]
 
     def oracle(self, spec, info, ob):
+        if info["strategy"] == "multi":
+            return self.oracle_multi(spec, info, ob)
         fails = []
         pages, raws = ob["pages"], ob["_raw"]
         P = len(pages)
@@ -102,7 +158,9 @@ class C07(layfamily.Family):
             first_b, first_r = tbl[0]
             last_b, last_r = tbl[-1]
             # (a) document's first table row
-            if pno == 1 and not (first_b[0] == "heading" and pb_no_header_excl):
+            # ('' on a header / component row leaves that component's own border setting in place: not judged here)
+            if pno == 1 and not (first_b[0] == "heading" and pb_no_header_excl) and \
+                    not (info["pf"] == "" and first_b[0] != "data"):
                 got = self.edges(first_r, "t")
                 if any(x != code(info["pf"]) for x in got):
                     fails.append(f"top edge of the document's first table row ({first_b}) is {got}, "
@@ -110,7 +168,7 @@ class C07(layfamily.Family):
             # (b) document's last table row / (c) last table row before a break
             want = info["pl"] if pno == P else info["bl"]
             got = self.edges(last_r, "b")
-            if any(x != code(want) for x in got):
+            if any(x != code(want) for x in got) and not (want == "" and last_b[0] != "data"):
                 which = "rtf_page.border_last" if pno == P else "rtf_body.border_last"
                 fails.append(f"page {pno} of {P}: bottom edge of the last table row ({last_b}) is {got}, {which} = {want}")
             # (c) first data row of every page
@@ -156,6 +214,8 @@ class C07(layfamily.Family):
 
     def worker_extra(self, spec, info, ob):
         """BorderIn per page for the Lean model + the observed grids"""
+        if info["strategy"] == "multi":
+            return []
         cols = spec["df"]["cols"]
         disp = [cols.index(c) for c in info["displayed"]]
         removed = [cols.index(c) for c in info["removed"]]
